@@ -28,12 +28,13 @@ N(f, b, l) == [fam |-> f, base |-> b, len |-> l]
 PairBase == { N("v4", 0, 1), N("v4", 16, 2), N("v4", 20, 4), N("v4", 21, 6), N("v4", 32, 1), N("v4", 24, 3),
               N("v6", 0, 1), N("v6", 16, 2), N("v6", 20, 4), N("v6", 48, 2), N("host4", 63, 6), N("host6", 0, 6) }
 
+WellFormed(nt) == nt \notin {"garbage", "absent"}
 Family(n) == IF n.fam \in {"v4", "host4", "all4"} THEN 4 ELSE 6
 NotationFamily(nt) == IF nt = "v6" THEN 6 ELSE 4      \* v4, mapped, mappedhex denote IPv4 addresses
 
 \* ---- requirement: CIDR membership, independent of notation within a family -------------
 Covers(n, x) == IF n.fam \in {"all4", "all6"} THEN TRUE ELSE Mask(x, n.len) = n.base
-Req_Trusted(x, nt, nets) == \E i \in 1..Len(nets) : Family(nets[i]) = NotationFamily(nt) /\ Covers(nets[i], x)
+Req_Trusted(x, nt, nets) == WellFormed(nt) /\ \E i \in 1..Len(nets) : Family(nets[i]) = NotationFamily(nt) /\ Covers(nets[i], x)
 
 \* ---- implementation: per-family list of (mask length -> set of masked bases) ------------
 \* AddIPNet files a network under its family and prefix length; Has masks the address with every
@@ -44,12 +45,16 @@ MapsOf(nets, fam) == {Key(nets[i]) : i \in {j \in 1..Len(nets) : Family(nets[j])
 Stored(nets, fam, k) == {nets[i].base : i \in {j \in 1..Len(nets) : Family(nets[j]) = fam /\ Key(nets[j]) = k}}
 Impl_Trusted(x, nt, nets) ==
     LET fam == NotationFamily(nt)
-    IN \E k \in MapsOf(nets, fam) : IF k = 99 THEN TRUE ELSE Mask(x, k) \in Stored(nets, fam, k)
+    IN WellFormed(nt) /\ \E k \in MapsOf(nets, fam) : IF k = 99 THEN TRUE ELSE Mask(x, k) \in Stored(nets, fam, k)
 
 \* ---- cases -------------------------------------------------------------------------------
-Notations == {"v4", "mapped", "mappedhex", "v6"}
+\* "garbage": a header value that is not an address ("unknown, 203.0.113.7"); "absent": the configured header is missing
+Notations == {"v4", "mapped", "mappedhex", "v6", "garbage", "absent"}
+
 Sources   == {"remote", "X-Real-IP", "X-Forwarded-For"}
-Mk(x, nt, nets, src, lvl) == [addr |-> x, notation |-> nt, nets |-> nets, source |-> src, level |-> lvl]
+\* peer: is the directly connected peer (RemoteAddr) itself inside the first configured network?  In reverse-proxy mode only the
+\* configured header speaks for the client: the peer's own address must not matter
+Mk(x, nt, nets, src, lvl, peer) == [addr |-> x, notation |-> nt, nets |-> nets, source |-> src, level |-> lvl, peer |-> peer]
 
 NetSeqs == {<<n>> : n \in Nets1}
               \cup {<<p[1], p[2]>> : p \in {q \in PairBase \X PairBase : q[1] # q[2]}}
@@ -59,6 +64,9 @@ NetSeqs == {<<n>> : n \in Nets1}
 
 InScope(c) ==
     /\ (c.level = "fn" => c.source = "remote")
+    /\ (~WellFormed(c.notation) => c.level = "e2e" /\ c.source # "remote" /\ c.addr = 0 /\ Len(c.nets) = 1)
+    /\ (c.peer = "trusted" => c.level = "e2e" /\ c.source # "remote" /\ Len(c.nets) = 1 /\ c.nets[1].fam \in {"v4", "v6"}
+                              /\ (WellFormed(c.notation) => c.addr \in {0, 21, 63}))
     \* end-to-end: single networks of a few lengths and all pairs, addresses at and next to the edges
     /\ (c.level = "e2e" => /\ Len(c.nets) <= 2
                             /\ (Len(c.nets) = 1 => c.nets[1].len \in {0, 1, 3, 5, 6})
@@ -67,8 +75,8 @@ InScope(c) ==
     /\ (Tier = "quick" /\ Len(c.nets) = 1 /\ c.level = "e2e" => c.nets[1].base \in {0, 16, 20, 21, 32, 48, 62, 63})
 
 VARIABLE c
-Init == \E x \in U, nt \in Notations, nets \in NetSeqs, src \in Sources, lvl \in {"fn", "e2e"} :
-          c = Mk(x, nt, nets, src, lvl) /\ InScope(c)
+Init == \E x \in U, nt \in Notations, nets \in NetSeqs, src \in Sources, lvl \in {"fn", "e2e"}, peer \in {"untrusted", "trusted"} :
+          c = Mk(x, nt, nets, src, lvl, peer) /\ InScope(c)
 Next == UNCHANGED c
 
 ImplMeetsReq == Impl_Trusted(c.addr, c.notation, c.nets) = Req_Trusted(c.addr, c.notation, c.nets)
